@@ -1,6 +1,7 @@
 SPECIFICATION TraceSpec
 CONSTANTS
   Mutation = "none"
+  AdversaryOn = FALSE
   Layer = "prop"
 POSTCONDITION TraceAccepted
 CHECK_DEADLOCK FALSE
